@@ -264,6 +264,41 @@ def supply_modes(ctx, table, rnd, n):
     modgen.unload(m)
 
 
+BUILT_AGAIN_SRC = modgen.DS_HEADER + '''
+def hard_h(x, cut): return x.jets.Where(lambda j: j.pt > cut)
+def b0(ds): return ds.Select(lambda j_1: j_1.events.Select(lambda j: (lambda cut: j.jets.Where(lambda j: j.pt > cut))(j.met)))
+def b1(ds): return ds.Select(lambda e_1: (lambda c: e_1.jets.Select(lambda e: (lambda d: e.trks.Where(lambda e: e.pt > d + c))(e.pt)))(e_1.met))
+def b2(ds): return ds.Select(lambda j_1: j_1.events.Select(lambda j: hard_h(j, j.met)))
+def b3(ds): return ds.Select(lambda j_1, *, j_1_1=2: j_1.events.Select(lambda j: (lambda cut: j.jets.Where(lambda j: j.pt > cut * j_1_1))(j.met)))
+def b4(ds): return ds.Select(lambda e: (lambda cut: e.jets.Where(lambda j: j.pt > cut))(e.met))
+'''
+
+
+def built_again(ctx):
+    """history: the same source built again and again in one process, other queries in between (names that have to be made up while a
+    query is built - a binder renamed because its first new name is taken - must not depend on what was built before)"""
+    from func_adl.ast.ast_hash import calc_ast_hash
+
+    m = modgen.load(BUILT_AGAIN_SRC, "c20b")
+    seen = {}
+    for rnd_i in range(4):
+        for name in ("b0", "b1", "b2", "b3", "b4", "b2", "b0"):
+            try:
+                q = getattr(m, name)(m.DS()).query_ast
+            except Exception as e:
+                ctx.count("built-again:raised:" + type(e).__name__)
+                continue
+            h = calc_ast_hash(q)
+            ctx.case(f"built-again:{name}:{rnd_i}", True)
+            ctx.count("built-again:queries")
+            first = seen.setdefault(name, (h, astx.unparse(q)))
+            if first[0] != h:
+                ctx.violation("same-source-built-again-hashes-differently", f"{name} built again in the same process: {first[1][:160]} then {astx.unparse(q)[:160]}", {"built_again": True})
+                modgen.unload(m)
+                return
+    modgen.unload(m)
+
+
 def deep_pairs(ctx):
     """scale boundary: pairs of very deep queries differing in one place (a constant at the bottom, the nesting of the last
     lambda's calls). A RecursionError is not judged; when both hashes are returned they must differ."""
@@ -374,6 +409,8 @@ def shard_main(ctx):
     if ctx.shard == 0:
         cross_process(ctx, table)
     supply_modes(ctx, table, random.Random(ctx.seed * 77 + ctx.shard), 12 if ctx.tier == "quick" else 200)
+    if ctx.shard == 3 % ctx.nshards:
+        built_again(ctx)
     for i in range(N_CASES[ctx.tier]):
         if ctx.out_of_time():
             ctx.count("stopped-by-time-budget")
@@ -521,6 +558,10 @@ def shard_main(ctx):
 
 
 def replay(ctx, witness):
+    if witness.get("built_again"):
+        built_again(ctx)
+        modgen.cleanup()
+        return
     if "hand_built" in witness:
         hand_built_annotated(ctx)
         return
